@@ -61,7 +61,7 @@ def trajectories(model, n_src):
 def standin_self_consistent(tier, seed):
     from leaspy.variables.specs import PopulationLatentVariable, LinkedVariable
     violations, evals, distinct, samples = [], 0, set(), []
-    for kind, kw, n_ft, noise, feats in (CONFIGS if tier == "thorough" else CONFIGS[:4]):
+    for kind, kw, n_ft, noise, feats in (CONFIGS if tier == "thorough" else CONFIGS[:3] + CONFIGS[5:]):
         m, _ = make(kind, kw, n_ft, noise, feats, seed)
         what = f"{kind}{kw or ''} {noise}"
         st = m.state
@@ -99,7 +99,7 @@ def standin_self_consistent(tier, seed):
             samples.append(dict(model=what, checked=sorted(st.dag.sorted_variables_by_type[PopulationLatentVariable])))
     uniq = {v["key"]: v for v in violations}
     return dict(evaluations=evals, distinct_nontrivial=len(distinct), rule="one evaluation = one variable of one fitted model compared with its prior mode / its value from the saved parameters",
-                samples=samples, violations=list(uniq.values())[:8], bound=dict(configurations=len(CONFIGS if tier == 'thorough' else CONFIGS[:4]), exhaustive=False))
+                samples=samples, violations=list(uniq.values())[:60], bound=dict(configurations=len(CONFIGS if tier == 'thorough' else CONFIGS[:3] + CONFIGS[5:]), exhaustive=False))
 
 
 def standin_save_load(tier, seed):
@@ -108,7 +108,7 @@ def standin_save_load(tier, seed):
     tmp = tempfile.mkdtemp(prefix="c12_")
     try:
         cases = []
-        for q, (kind, kw, n_ft, noise, feats) in enumerate(CONFIGS if tier == "thorough" else CONFIGS[:5]):
+        for q, (kind, kw, n_ft, noise, feats) in enumerate(CONFIGS if tier == "thorough" else CONFIGS[:4] + CONFIGS[5:]):
             cases.append((kind, kw, n_ft, noise, feats, None, "fit"))
         cases.append(("logistic", dict(source_dimension=1), 2, "gaussian-scalar", None, "my_model", "fit"))
         cases.append(("linear", dict(source_dimension=1), 3, "gaussian-scalar", None, "Linear study #2", "fit"))
@@ -164,7 +164,7 @@ def standin_save_load(tier, seed):
         shutil.rmtree(tmp, ignore_errors=True)
     uniq = {v["key"]: v for v in violations}
     return dict(evaluations=evals, distinct_nontrivial=len(distinct), rule="one evaluation = one model saved, loaded, compared and saved again",
-                samples=samples, violations=list(uniq.values())[:8], bound=dict(cases=len(cases), exhaustive=False))
+                samples=samples, violations=list(uniq.values())[:60], bound=dict(cases=len(cases), exhaustive=False))
 
 
 STANDINS = [standin_self_consistent, standin_save_load]
